@@ -32,6 +32,7 @@ LEVEL = "exploration"
 TECHNIQUE = ("deterministic simulation: seeded stream grammar + seeded segmentation/pause/mode-switch schedule on real "
              "receivers vs whole-stream reference framers and vs one-piece delivery")
 QUICK_RUNS = 120000
+TWIN_P = 0.08   # this share of the runs drives two independent instances of the scenario one after the other (detsim.runner._run_scenario)
 BATCH = 100
 AVOID_KNOWN_P = 0.1
 COMPONENTS = {
